@@ -115,6 +115,14 @@ class Some:
         self.v = v
 
 
+class Module:
+    """a module instance: its path and the cells it exported (importers share the instance)"""
+    __slots__ = ("path", "exports")
+
+    def __init__(self, path):
+        self.path, self.exports = path, {}
+
+
 class MapRef:
     """a map with CONCRETE keys (python ints / ("str", s)) and arbitrary values; shared by reference"""
     __slots__ = ("items",)
@@ -424,6 +432,16 @@ def arith(o, op, a, b):
             return (U_DIV if op == "/" else U_REM)(x, y)      # symbolic divisor: uninterpreted quotient / remainder
         return z3.simplify(x / y if op == "/" else z3.SRem(x, y))
     raise Unsupported("operator " + op)
+
+
+def shift(o, op, a, b):
+    """i32 `a << b` / `a >> b` (arithmetic): fails iff the amount is negative or >= 32; bits shifted out are lost"""
+    if not (is_int(a) and is_int(b)):
+        raise Unsupported("shift of non-int operands")
+    x, y = bv(a), bv(b)
+    _ovf_guard(o, z3.And(y >= 0, y < 32), "shift amount out of range")
+    r = z3.simplify(x << y if op == "<<" else x >> y)
+    return r.as_signed_long() if z3.is_bv_value(r) else r
 
 
 def compare(op, a, b):
